@@ -475,6 +475,25 @@ func checkC13(c *Ctx, r *Report) {
 		r.Fn(pname)
 		ok := false
 		why := "back-off is not wrapped with backoff.WithContext"
+		// the policy may be a parameter of a (generic) retry helper: then every caller's argument
+		// is judged, in the caller
+		if len(rs.Call.Call.Args) == 2 {
+			if args := c.paramArgs(rs.Call.Call.Args[1]); len(args) > 0 {
+				ok = true
+				for _, a := range args {
+					call, isCall := stripConv(a).(*ssa.Call)
+					if !isCall || !isCallTo(call, fnBackoffWithCtx) {
+						ok = false
+						continue
+					}
+					if p := ctxProvenance(call.Parent(), call.Call.Args[1]); p != "param" {
+						ok, why = false, "retry loop is bounded by "+p+", not by the caller's context"
+					}
+				}
+				r.Check(ok, pname+"|Retry(WithContext(ctx))", rs.Call.Pos(), "bounded by the context of every caller of the retry helper", why)
+				continue
+			}
+		}
 		if len(rs.Call.Call.Args) == 2 {
 			if call, isCall := stripConv(rs.Call.Call.Args[1]).(*ssa.Call); isCall && isCallTo(call, fnBackoffWithCtx) {
 				// the Retry call may sit in a helper the site's function calls with its own context
